@@ -1162,7 +1162,9 @@ def rules(tier):
             # C05-da: found_providers, found_emails = email_detection(..) - the e-mail and provider counters swap contents
             ('C05.R18', _shared_rule('plumbing', 'unpack_order')),
             # mutation sweep: counters are exactly the tallies of the segments
-            ('C05.R19', _shared_rule('c06', 'r21_unit_tallies'))]
+            ('C05.R19', _shared_rule('c06', 'r21_unit_tallies')),
+            # C05-eb: interesting_keyboard deletes a leading 'e' from the caller's run in place
+            ('C05.R20', _shared_rule('plumbing', 'read_only_helpers'))]
 
 
 META = {
